@@ -69,3 +69,68 @@ Check (C17.C17_sum_ieee_in_domain : forall s e vals, FloatExact.in_exact_domain 
   let cl := clip_filter s e vals in
   is_fin (sum_of ieee cl) = true /\ (fl_Q (sum_of ieee cl) == sumQ cl)%Q /\
   C06FileFloat.same_num (sum_of ieee cl) (sum_of exact cl)).
+
+(* ---- the file bytes as the subject (appended; Proofs/BedStatsFile.v) ---- *)
+From BT Require Proofs.RTreeCodec Proofs.BigWigFileRoundTrip Proofs.BigWigFileInput Proofs.BedStatsFile.
+Check (C17.C17_stats_file : forall fp o sizes (inp : list BigWigWrite.item) bs,
+  BigWigFileRoundTrip.opts_ok o -> BigWigFileRoundTrip.input_ok sizes inp -> Nlen bs < RTreeCodec.U64 ->
+  bw_write fp o sizes inp = Ok bs \/ bw_write_multipass fp o sizes inp = Ok bs ->
+  exists i, read_info bs = Ok i /\
+  forall fq infl c s e rest, In c (map fst inp) -> s <= e ->
+  let cl := clip_filter s e (BigWigFileInput.vals_of inp c) in
+  bw_interval infl bs i c s e = Ok cl /\
+  exists st,
+    stats_for_bed_item fq (bw_interval infl bs i) c {| be_start := s; be_end := e; be_rest := rest |} = Ok st /\
+    st_size st = e - s /\ st_bases st = bases_of cl /\ st_sum st = sum_of fq cl /\
+    st_mean0 st = fdiv64 fq (sum_of fq cl) (f_of_N (e - s)) /\
+    (bases_of cl = 0 -> st_mean st = FNaN /\ st_min st = FNaN /\ st_max st = FNaN) /\
+    (bases_of cl <> 0 ->
+       st_mean st = fdiv64 fq (sum_of fq cl) (f_of_N (bases_of cl)) /\
+       st_min st = fold_left fmin (map v_val cl) f64_max /\
+       st_max st = fold_left fmax (map v_val cl) f64_min)).
+Check (C17.C17_bases_file : forall fp o sizes (inp : list BigWigWrite.item) bs,
+  BigWigFileRoundTrip.opts_ok o -> BigWigFileRoundTrip.input_ok sizes inp -> Nlen bs < RTreeCodec.U64 ->
+  bw_write fp o sizes inp = Ok bs \/ bw_write_multipass fp o sizes inp = Ok bs ->
+  exists i, read_info bs = Ok i /\
+  forall fq infl c s e rest, In c (map fst inp) -> s <= e ->
+  exists st,
+    stats_for_bed_item fq (bw_interval infl bs i) c {| be_start := s; be_end := e; be_rest := rest |} = Ok st /\
+    st_bases st = N.of_nat (covered_count (BigWigFileInput.vals_of inp c) s e)).
+Check (C17.C17_stats_per_base_file : forall fp o sizes (inp : list BigWigWrite.item) bs,
+  BigWigFileRoundTrip.opts_ok o -> BigWigFileRoundTrip.input_ok sizes inp -> Nlen bs < RTreeCodec.U64 ->
+  bw_write fp o sizes inp = Ok bs \/ bw_write_multipass fp o sizes inp = Ok bs ->
+  exists i, read_info bs = Ok i /\
+  forall infl c s e rest, In c (map fst inp) -> s <= e ->
+  let vals := BigWigFileInput.vals_of inp c in
+  all_finite (clip_filter s e vals) ->
+  exists st,
+    stats_for_bed_item exact (bw_interval infl bs i) c {| be_start := s; be_end := e; be_rest := rest |} = Ok st /\
+    st_bases st = N.of_nat (covered_count vals s e) /\
+    is_fin (st_sum st) = true /\
+    (fl_Q (st_sum st) == sum_over (base_val vals) (region_bases s e))%Q).
+Check (C17.C17_values_file : forall fp o sizes (inp : list BigWigWrite.item) bs,
+  BigWigFileRoundTrip.opts_ok o -> BigWigFileRoundTrip.input_ok sizes inp -> Nlen bs < RTreeCodec.U64 ->
+  bw_write fp o sizes inp = Ok bs \/ bw_write_multipass fp o sizes inp = Ok bs ->
+  exists i, read_info bs = Ok i /\
+  forall infl c s e, In c (map fst inp) -> s <= e ->
+  let vals := BigWigFileInput.vals_of inp c in
+  exists cl, bw_interval infl bs i c s e = Ok cl /\
+    existsb (out_of_region s e) cl = false /\
+    length (vob_fill s e cl) = N.to_nat (e - s) /\
+    (forall k, (k < N.to_nat (e - s))%nat ->
+       nth_error (vob_fill s e cl) k =
+       Some (match find (covers (s + N.of_nat k)) vals with Some v => v_bits v | None => 0 end)) /\
+    (forall l st en uniq,
+       piece 0 (trim l) = Some c -> piece 1 (trim l) = Some st -> piece 2 (trim l) = Some en ->
+       parse_u32 st = Some s -> parse_u32 en = Some e ->
+       vob_line (bw_interval infl bs i) false uniq l = Ok (None, vob_fill s e cl))).
+Check (C17.C17_line_file : forall fp o sizes (inp : list BigWigWrite.item) bs,
+  BigWigFileRoundTrip.opts_ok o -> BigWigFileRoundTrip.input_ok sizes inp -> Nlen bs < RTreeCodec.U64 ->
+  bw_write fp o sizes inp = Ok bs \/ bw_write_multipass fp o sizes inp = Ok bs ->
+  exists i, read_info bs = Ok i /\
+  forall fq infl m l c en nm, parse_bed l = Ok (c, en) -> name_for_bed_item m c en = Ok nm ->
+  In c (map fst inp) -> be_start en <= be_end en ->
+  let cl := clip_filter (be_start en) (be_end en) (BigWigFileInput.vals_of inp c) in
+  exists st, line_result fq (bw_interval infl bs i) m l = Ok (nm, st) /\
+    stats_of fq (be_start en) (be_end en) cl = Ok st /\
+    st_size st = be_end en - be_start en /\ st_bases st = bases_of cl /\ st_sum st = sum_of fq cl).
